@@ -144,6 +144,11 @@ static void link_holes(ClipperLib::PolyNode* node, ErrorCode& error_code) {
         ClipperLib::Path::iterator p_prev = contour->end() - 1;
         ClipperLib::Path::iterator p_next = contour->begin();
         ClipperLib::cInt xnew = 0;
+        // Closest crossing on the other side, used when there is none to the left: the
+        // rounding of an intersection can leave the leftmost vertex of a hole on the outer
+        // side of the contour edge it touches
+        ClipperLib::Path::iterator p_right = contour->end();
+        ClipperLib::cInt xright = 0;
         for (; p_next != p_end; p_prev = p_next++) {
             if ((p_next->Y <= hole_min->Y && hole_min->Y < p_prev->Y) ||
                 (p_prev->Y < hole_min->Y && hole_min->Y <= p_next->Y)) {
@@ -154,6 +159,9 @@ static void link_holes(ClipperLib::PolyNode* node, ErrorCode& error_code) {
                 if ((x > xnew || p_closest == p_end) && x <= hole_min->X) {
                     xnew = x;
                     p_closest = p_next;
+                } else if (x > hole_min->X && (x < xright || p_right == p_end)) {
+                    xright = x;
+                    p_right = p_next;
                 }
             } else if ((p_next->Y == hole_min->Y && p_prev->Y == hole_min->Y) &&
                        ((p_next->X <= hole_min->X && hole_min->X <= p_prev->X) ||
@@ -162,6 +170,11 @@ static void link_holes(ClipperLib::PolyNode* node, ErrorCode& error_code) {
                 p_closest = p_next;
                 break;
             }
+        }
+
+        if (p_closest == p_end && p_right != p_end) {
+            p_closest = p_right;
+            xnew = xright;
         }
 
         if (p_closest == p_end) {
